@@ -287,6 +287,8 @@ def check_vectorize(ctx, chk, hv):
         "processes": (f"each(enumerate({H}.processes.items()))[0]",
                       f"each(enumerate({H}.processes.items()))[1][1]"),
     }
+    from sa.canon import respell
+    want = {k_: (respell(a_) if a_ else a_, respell(b_)) for k_, (a_, b_) in want.items()}
     for fam, (welem, wval) in want.items():
         g = got.get(fam, [])
         ok = len(g) == 1 and g[0][0] == welem and g[0][1] == wval
@@ -325,8 +327,8 @@ def check_vectorize(ctx, chk, hv):
                     par = [p for p, a in actual.items() if a.endswith("." + hostattr)]
                     if len(dyn) == 1 and par:
                         k, v, _ = dyn[0]
-                        it = f"each(enumerate({par[0]}.items()))"
-                        ok = cn2.show(k) == f"{it}[1][0]" and cn2.show(v) == f"{it}[0]"
+                        it = f"each(enumerate({par[0]}))"
+                        ok = cn2.show(k) == f"{it}[1]" and cn2.show(v) == f"{it}[0]"
         chk.ob("C09.vectorize", f"{attr}[name] = position of name in enumerate(host.{hostattr}"
                ".items()) (same enumeration vectorize uses)", ok, detail,
                f"{hv.module.path}:{init.node.lineno}")
